@@ -174,8 +174,61 @@ def _pwl_case(draw, tier):
           "aux": draw(S.seeds)}
 
 
+def _cat(sizes, mono, **fams):
+  cfg = _empty_cfg(sizes)
+  cfg["mono"] = list(mono)
+  cfg.update(fams)
+  return cfg
+
+
+# Structural patterns every run must contain (kernels stay generated): several
+# constraints of one family sharing a dimension, size-2 dimensions next to
+# larger ones, both trust directions, both unimodality shapes.
+CATALOG = [
+    _cat([2, 2, 2], [1, 1, 1], mdom=[[0, 1], [0, 2]]),
+    _cat([3, 2, 2], [1, 1, 1], mdom=[[0, 1], [0, 2]]),
+    _cat([2, 3, 3], [1, 1, 1], mdom=[[0, 2], [1, 2]]),
+    _cat([3, 3, 3], [1, 1, 1], mdom=[[0, 1], [1, 2]]),
+    _cat([2, 2, 2], [1, 1, 1], rdom=[[0, 1], [0, 2]]),
+    _cat([3, 2, 3], [1, 1, 1], rdom=[[2, 0], [1, 0]]),
+    _cat([3, 2], [1, 0], ew=[[0, 1, 1]]),
+    _cat([2, 3], [1, 1], ew=[[0, 1, -1]]),
+    _cat([4, 2], [1, 0], ew=[[0, 1, -1]]),
+    _cat([2, 2, 5], [1, 0, 0], ew=[[0, 2, 1]]),
+    _cat([3, 2, 3], [1, 0, 0], ew=[[0, 1, 1], [0, 2, -1]]),
+    _cat([2, 3, 2], [1, 1, 0], ew=[[0, 2, 1], [1, 2, 1]]),
+    _cat([3, 2], [1, 0], tz=[[0, 1, -1]]),
+    _cat([2, 4], [1, 1], tz=[[0, 1, 1]]),
+    _cat([3, 2, 3], [1, 0, 0], tz=[[0, 1, 1], [0, 2, 1]]),
+    _cat([2, 3, 2], [1, 0, 1], ew=[[0, 1, 1]], tz=[[2, 1, -1]]),
+    _cat([3, 3, 2], [0, 0, 0], jmono=[[0, 1], [1, 2]]),
+    _cat([2, 3, 3], [0, 0, 0], jmono=[[0, 1], [0, 2]]),
+    _cat([5], [0], unimod=[1]),
+    _cat([4, 3], [0, 1], unimod=[-1, 0]),
+    _cat([3, 3], [0, 0], junimod=[[[0, 1], "valley"]]),
+    _cat([4, 3], [0, 0], junimod=[[[1], "peak"]]),
+    _cat([4, 3, 2], [1, 1, 1]),
+    _cat([3, 3], [1, 1], mdom=[[0, 1]], jmono=[[0, 1]]),
+]
+
+
+@st.composite
+def _catalog_case(draw, tier):
+  cfg = draw(st.sampled_from(CATALOG))
+  n = int(np.prod(cfg["sizes"]))
+  units = draw(st.sampled_from([1, 1, 2]))
+  return {"target": "lattice", "cfg": cfg, "units": units,
+          "kmode": draw(st.sampled_from(["raw", "raw", "raw", "feasible"])),
+          "kernel": draw(S.array_desc(
+              kinds=["normal", "normal", "uniform", "ints", "antisorted"],
+              scales=[1e-3, 1.0, 1.0, 10.0, 1e3], shape=(n, units))),
+          "aux": draw(S.seeds)}
+
+
 def strategy(tier):
-  return st.one_of(_lattice_case(tier), _lattice_case(tier), _pwl_case(tier))
+  return st.one_of(_lattice_case(tier), _lattice_case(tier),
+                   _lattice_case(tier), _pwl_case(tier), _pwl_case(tier),
+                   _catalog_case(tier))
 
 
 def _families(cfg):
